@@ -28,6 +28,14 @@ type Act struct {
 	OK   bool     `json:"ok"`
 	Kind string   `json:"kind"`
 	N    int      `json:"n"`
+	// block size class (spec/Database.tla): filler states, extra known operations, records that go through
+	// the block write batch / that the temp database holds; Wc: the block write database has a state cache
+	Cls string `json:"cls"`
+	F   int    `json:"f"`
+	X   int    `json:"x"`
+	Nb  int    `json:"nb"`
+	Nt  int    `json:"nt"`
+	Wc  *bool  `json:"wc"`
 }
 
 // Want is `Reads` of the spec.
@@ -41,6 +49,7 @@ type Want struct {
 	Pol  []int            `json:"pol"`
 	Iso  [][]interface{}  `json:"iso"`
 	Kno  [][]int          `json:"kno"`
+	Fl   [][]int          `json:"fl"` // h, g, number of readable filler states (0 for a removed block)
 	Pool [][]interface{}  `json:"pool"`
 }
 
@@ -195,7 +204,67 @@ func Compare(o *Obs, w *Want, keys []string) []Diff {
 	setdiff("ExistsInStateOperation", setStr(o.Iso), setStr(w.Iso))
 	setdiff("ExistsKnownOperation", setStr(intRows(o.Kno)), setStr(intRows(w.Kno)))
 
+	// every record of a block with filler states
+	if w.Fl != nil && o.Fl != nil {
+		got := map[string][]int{}
+		for _, r := range o.Fl {
+			got[fmt.Sprintf("%d.%d", r[0], r[1])] = r
+		}
+
+		for _, r := range w.Fl {
+			arg := fmt.Sprintf("%d.%d", r[0], r[1])
+
+			g, ok := got[arg]
+			if !ok {
+				ds = append(ds, Diff{Read: "State[filler]", Arg: arg, Got: "block unknown to the generator", Want: strconv.Itoa(r[2])})
+
+				continue
+			}
+
+			for j, read := range []string{"State[filler]", "StateBytes[filler]", "ExistsInStateOperation[filler]"} {
+				if g[2+j] != r[2] {
+					ds = append(ds, Diff{Read: read, Arg: arg, Got: fmt.Sprintf("%d found", g[2+j]), Want: fmt.Sprintf("%d found", r[2])})
+				}
+			}
+		}
+	}
+
 	return ds
+}
+
+// NewBlockOf builds the block of a Write / PermMerge action: size class and, when the spec chose it
+// (wc), whether the block write database carries a state cache (its size is the case's writecache).
+func NewBlockOf(gen *Gen, a *Act, writecache int) (*Block, error) {
+	b, err := gen.NewBlockSized(a.H, a.G, a.St, a.Sh, a.F, a.X)
+	if err != nil {
+		return nil, err
+	}
+
+	if a.Wc != nil {
+		switch {
+		case !*a.Wc:
+			b.WCache = -1
+		case writecache > 0:
+			b.WCache = writecache
+		default:
+			b.WCache = 64
+		}
+	}
+
+	return b, nil
+}
+
+// CountRecords: number of records of the whole leveldb storage.
+func (d *DB) CountRecords() int {
+	it := d.St.DB().NewIterator(nil, nil)
+	defer it.Release()
+
+	n := 0
+	for it.Next() {
+		n++
+	}
+
+	return n
 }
 
 // Runner replays one case on a fresh database.
@@ -254,12 +323,25 @@ func (r *Runner) steps(c *Case, db *DB, gen *Gen, res *Result) {
 		}
 
 		switch a.Name {
+		case "Read":
+			// reading is a step of the spec (ReadAll): performed here, compared below when the case says so
+			if i >= len(c.Reads) || c.Reads[i] == nil {
+				_ = db.Observe(db.Center, r.Keys, r.MaxLen, false)
+				res.Reads++
+
+				continue
+			}
 		case "Write":
-			b, err := gen.NewBlock(a.H, a.G, a.St, a.Sh, 0)
+			b, err := NewBlockOf(gen, &a, c.WriteCache)
 			if err != nil {
 				res.Fatal = fmt.Sprintf("step %d: generate block: %+v", i, err)
 
 				return
+			}
+
+			before := 0
+			if a.Nt > 0 && a.G == 1 {
+				before = db.CountRecords()
 			}
 
 			if err := db.WriteBlock(b); err != nil {
@@ -267,6 +349,17 @@ func (r *Runner) steps(c *Case, db *DB, gen *Gen, res *Result) {
 				res.Fatal = "write failed"
 
 				return
+			}
+
+			// the block the generator built has the number of records the spec gave it (else the size
+			// classes mean nothing): machinery, not a verdict
+			if a.Nt > 0 && a.G == 1 {
+				if n := db.CountRecords() - before; n != a.Nt {
+					res.Diffs = nil
+					res.Fatal = fmt.Sprintf("step %d: the generated block has %d records in its temp database, the spec says %d", i, n, a.Nt)
+
+					return
+				}
 			}
 		case "MergeOne":
 			merged, err := db.Center.VerifMergeOne()
@@ -315,7 +408,7 @@ func (r *Runner) steps(c *Case, db *DB, gen *Gen, res *Result) {
 			}
 		}
 
-		o := db.Observe(db.Center, r.Keys, r.MaxLen, false)
+		o := db.ObserveAll(db.Center, r.Keys, r.MaxLen, false)
 		res.Reads++
 
 		for _, e := range o.Errs {
